@@ -346,7 +346,25 @@ func hasAnyPrefix(s string, prefixes string) bool {
 		return false
 	}
 	for _, p := range strings.Split(prefixes, ",") {
-		if p != "" && strings.HasPrefix(s, p) {
+		if p != "" && !strings.HasPrefix(p, "task:") && strings.HasPrefix(s, p) {
+			return true
+		}
+	}
+	return false
+}
+
+// starved reports whether an action is held back by the policy's Starve list: by key prefix, or ("task:<prefix>") by the
+// task that issued it - every outstanding call of one controller's reconciles is slow, whatever it calls; the start of a
+// new reconcile ("rec/...") of that controller is not.
+func starved(a *Action, prefixes string) bool {
+	if hasAnyPrefix(a.Key, prefixes) {
+		return true
+	}
+	if !strings.Contains(prefixes, "task:") {
+		return false
+	}
+	for _, p := range strings.Split(prefixes, ",") {
+		if strings.HasPrefix(p, "task:") && a.Task != "" && strings.HasPrefix(a.Task, p[5:]) && !strings.HasPrefix(a.Key, "rec/") {
 			return true
 		}
 	}
@@ -392,7 +410,7 @@ func (k *Kernel) choose(acts []Action) int {
 	case "starve", "window":
 		var pref []int
 		for _, i := range eager {
-			if !hasAnyPrefix(acts[i].Key, k.Sched.Starve) {
+			if !starved(&acts[i], k.Sched.Starve) {
 				pref = append(pref, i)
 			}
 		}
